@@ -120,8 +120,24 @@ Proof.
   unfold enc_fstruct. unfold key_type_ok in Hok. unfold key_ids_unique in Hu.
   rewrite (proj2 norm_ok _ Hok), resolve_nodup by auto.
   apply enc_fs_agree. apply build_agree; auto.
-  symmetry. eapply (proj1 key_vals_length); eauto.
+  symmetry. eapply key_vals_length; eauto.
 Qed.
+
+(* the members of the key holder are numbered afresh: no two share an id *)
+Lemma mem_zseq : forall k n x, x < n -> mem x (zseq n k) = false.
+Proof.
+  induction k as [|k IH]; intros n x H; cbn [zseq mem]; auto.
+  rewrite IH by lia. destruct (x =? n) eqn:E; [apply Z.eqb_eq in E; lia|reflexivity].
+Qed.
+
+Lemma nodup_zseq : forall k n, nodup (zseq n k) = true.
+Proof.
+  induction k as [|k IH]; intros n; cbn [zseq nodup]; auto.
+  rewrite mem_zseq by lia. rewrite IH. reflexivity.
+Qed.
+
+Theorem key_ids_unique_always : forall t, key_ids_unique t = true.
+Proof. intros. unfold key_ids_unique, kh_type. rewrite ids_of_renumber. apply nodup_zseq. Qed.
 
 (* ------------------------------------------------------------- C11 => *)
 
